@@ -642,7 +642,13 @@ func runCheck(c *propCfg, tier string) int {
 	ev := evidence{PropertyID: c.id, Tier: tier, Seed: seed, Level: c.level, Coverage: cov, Assumptions: c.assume,
 		WallS: time.Since(start).Seconds(), Violations: len(violations)}
 	eb, _ := json.MarshalIndent(ev, "", " ")
-	_ = os.WriteFile(filepath.Join(root, "evidence", c.id+".json"), eb, 0o644)
+	evDir := filepath.Join(root, "evidence")
+	if repoDir() != "/repo" {
+		// sensitivity runs against another checkout never touch the committed evidence
+		evDir = filepath.Join(root, "work", "evidence-alt")
+		_ = os.MkdirAll(evDir, 0o755)
+	}
+	_ = os.WriteFile(filepath.Join(evDir, c.id+".json"), eb, 0o644)
 
 	fmt.Printf("%s %s: %d evaluations, %d distinct non-trivial, %d shards, %.1fs\n", c.id, tier, m.Evaluations, m.Distinct, m.Shards, time.Since(start).Seconds())
 	if len(violations) > 0 {
